@@ -29,7 +29,6 @@ theorem js_token_sep (ts : List Tok) (hok : ∀ t ∈ ts, tokOk t = true) (hadj 
     (hhead : headOk ts = true) (hgoal : goalsOk {} true ts = true) :
     lex (emit ts) = some (lexToks true ts) := by
   rw [emit_eq_render]
-  have hlen := render_length {} ts hok
   have := sep_core ts {} {} true [] ((render {} ts).length + 1) (by omega) hok hadj (fun _ => hhead) hgoal
   simpa [lex] using this
 
